@@ -320,7 +320,7 @@ func TestVerifC05(t *testing.T) {
 	}
 	if vthorough() {
 		cfgs = append(cfgs, cfg{64, 6, small, true, true, 40}, cfg{64, 4, small, false, false, 40},
-			cfg{4, 2, append(append([]int{}, big...), 4<<20), true, true, 8}, cfg{32, 8, small, true, true, 30})
+			cfg{2, 1, []int{4 << 20}, true, false, 4}, cfg{2, 1, []int{4 << 20}, false, true, 4}, cfg{32, 8, small, true, true, 30})
 	}
 	for i, c := range cfgs {
 		tag := fmt.Sprintf("stress:%d", i)
